@@ -104,22 +104,39 @@ pub fn padded_record(key_idx: u32, seq: u8, target_size: u16) -> Enr {
             return e.clone();
         }
         let k = key(key_idx);
-        let build = |pad: usize| -> Option<Enr> {
+        // The builder's size check over-estimates by a few bytes (its largest record has ~295 bytes),
+        // `Enr::insert` checks the real size: build the base with seq - 1 and insert the pad field
+        // (which bumps the sequence number) to reach every size up to exactly 300.
+        let via_insert = seq >= 1;
+        let base_seq = if via_insert { seq as u64 - 1 } else { seq as u64 };
+        let base = {
             let mut b = Enr::builder();
-            b.seq(seq as u64)
+            b.seq(base_seq)
                 .ip4(Ipv4Addr::new(10, 2, (key_idx >> 8) as u8, (key_idx % 250 + 1) as u8))
                 .udp4(9000 + (key_idx % 1000) as u16);
-            if pad > 0 {
-                let bytes = vec![0xEEu8; pad];
-                b.add_value("pad", &bytes.as_slice());
-            }
-            b.build(&k).ok()
+            b.build(&k).expect("base record")
         };
-        let base = build(0).expect("base record");
-        let mut best = base.clone();
-        if (base.size() as u16) < target {
+        let build = |pad: usize| -> Option<Enr> {
+            let bytes = vec![0xEEu8; pad];
+            if via_insert {
+                let mut e = base.clone();
+                e.insert("pad", &bytes.as_slice(), &k).ok()?;
+                Some(e)
+            } else {
+                let mut b = Enr::builder();
+                b.seq(seq as u64)
+                    .ip4(Ipv4Addr::new(10, 2, (key_idx >> 8) as u8, (key_idx % 250 + 1) as u8))
+                    .udp4(9000 + (key_idx % 1000) as u16);
+                if pad > 0 {
+                    b.add_value("pad", &bytes.as_slice());
+                }
+                b.build(&k).ok()
+            }
+        };
+        let mut best = build(0).expect("unpadded record");
+        if (best.size() as u16) < target {
             // search the pad length giving the largest size <= target
-            let mut pad = (target as usize).saturating_sub(base.size());
+            let mut pad = (target as usize).saturating_sub(best.size());
             loop {
                 if let Some(e) = build(pad) {
                     if e.size() <= target as usize {
@@ -133,6 +150,7 @@ pub fn padded_record(key_idx: u32, seq: u8, target_size: u16) -> Enr {
                 pad -= 1;
             }
         }
+        debug_assert_eq!(best.seq(), seq as u64);
         m.borrow_mut().insert((key_idx, seq, target), best.clone());
         best
     })
